@@ -20,7 +20,7 @@ use futures_util::lock::{Mutex as AsyncMutex, MutexGuard};
 use futures_util::stream::{FuturesUnordered, Stream, StreamExt, once};
 use futures_util::{
     Future, FutureExt,
-    future::{BoxFuture, Shared},
+    future::{BoxFuture, Either, Shared, select},
 };
 use parking_lot::Mutex;
 #[cfg(feature = "serde")]
@@ -355,7 +355,30 @@ impl<P: ConnectionProvider> PoolState<P> {
             // error) — used to avoid double-penalizing them.
             let mut completed = SmallVec::<[IpAddr; 2]>::new();
 
-            while let Some((server, result)) = requests.next().await {
+            // Bound the wait for every reply of the batch by what is left of the end-to-end
+            // deadline: a round that starts just before the deadline must not run for another
+            // full per-server timeout.
+            while let Some((server, result)) = {
+                let remaining = deadline.saturating_duration_since(Instant::now());
+                let timer =
+                    <<P as ConnectionProvider>::RuntimeProvider as RuntimeProvider>::Timer::delay_for(
+                        remaining,
+                    );
+                match select(requests.next(), timer).await {
+                    Either::Left((next, _)) => next,
+                    Either::Right(_) => {
+                        // Penalize the servers that are abandoned in flight (see `record_cancelled`).
+                        let waited = batch_start.elapsed();
+                        for abandoned in &in_flight {
+                            if !completed.contains(&abandoned.ip()) {
+                                debug!(ip = ?abandoned.ip(), ?waited, "deadline reached, abandoning server");
+                                abandoned.record_cancelled(waited);
+                            }
+                        }
+                        return Err(NetError::Timeout);
+                    }
+                }
+            } {
                 completed.push(server.ip());
                 let e = match result {
                     Ok(response) if response.truncation => {
